@@ -56,28 +56,31 @@ At(p, K) ==
     [] p = "sliceptr" -> [k |-> "slice", e |-> [k |-> "ptr", e |-> K]]
     [] p = "ptrptr" -> [k |-> "ptr", e |-> [k |-> "ptr", e |-> K]]
 
+\* field names: exported / unexported, ASCII and not (symbolic: the harness turns NAlower.. into a name starting with a
+\* lower-case non-ASCII letter, NAupper.. into one starting with an upper-case non-ASCII letter)
+Names == {[n |-> "A", x |-> TRUE], [n |-> "a", x |-> FALSE], [n |-> "NAlower1", x |-> FALSE], [n |-> "NAupper1", x |-> TRUE]}
 VARIABLES st, c
 vars == <<st, c>>
-Init == st = "pos" /\ c = [pos |-> "", K |-> [k |-> "bool"], tf |-> CHOOSE x \in TagForms : TRUE, exp |-> TRUE, K2 |-> [k |-> "bool"]]
+Init == st = "pos" /\ c = [pos |-> "", K |-> [k |-> "bool"], tf |-> CHOOSE x \in TagForms : TRUE, exp |-> [n |-> "A", x |-> TRUE], K2 |-> [k |-> "bool"]]
 Next ==
   \/ st = "pos" /\ \E p \in Positions \cup {"dup"} : c' = [c EXCEPT !.pos = p] /\ st' = "kind"
   \/ st = "kind" /\ \E K \in FieldKinds : (c.pos = "mapkey" => Comparable(K)) /\ (c.pos \in {"slice", "slice2"} => ~(K.k = "uint" /\ K.w = 8))
                     /\ c' = [c EXCEPT !.K = K] /\ st' = IF c.pos = "dup" THEN "k2" ELSE IF c.pos = "top" THEN "done" ELSE "tag"
   \/ st = "k2" /\ \E K \in Sup : c' = [c EXCEPT !.K2 = K] /\ st' = "done"
   \/ st = "tag" /\ \E tf \in TagForms : c' = [c EXCEPT !.tf = tf] /\ st' = "exp"
-  \/ st = "exp" /\ \E e \in BOOLEAN : c' = [c EXCEPT !.exp = e] /\ st' = "done"
+  \/ st = "exp" /\ \E e \in Names : c' = [c EXCEPT !.exp = e] /\ st' = "done"
 Spec == Init /\ [][Next]_vars
 
 Done == st = "done"
 Def == IF c.pos = "top" THEN c.K
        ELSE IF c.pos = "dup" THEN St(<<OkFd("A", 5, c.K), OkFd("Z", 9, IntT), OkFd("B", 5, c.K2)>>)
-       ELSE St(<<Fd(IF c.exp THEN "A" ELSE "a", c.exp, c.tf, At(c.pos, c.K)), OkFd("Z", 9, IntT)>>)
+       ELSE St(<<Fd(c.exp.n, c.exp.x, c.tf, At(c.pos, c.K)), OkFd("Z", 9, IntT)>>)
 Cls == Classify(Def)
 
 \* sanity of the classification itself
 ClassTotal == Done => Cls \in {"accept", "reject", "either"}
 \* unexported and "-" fields make any field type acceptable
-SkippedIgnored == Done /\ c.pos \notin {"dup", "top"} /\ (~c.exp \/ c.tf.pt.form = "dash") => Cls = "accept"
+SkippedIgnored == Done /\ c.pos \notin {"dup", "top"} /\ (~c.exp.x \/ c.tf.pt.form = "dash") => Cls = "accept"
 \* an accepted definition has a codec-level reading on which the model's round trip holds for the zero value
 AcceptedEncodes == Done /\ Cls = "accept" =>
    LET T == Bake(ToCodecType(Def), "")  d == Decode(Cfg0, T, Encode(Cfg0, T, Zero(T)), Zero(T)) IN d.ok /\ Eq(T, d.v, Zero(T))
